@@ -159,6 +159,26 @@ let run toks =
             | Some j0 ->
                 let j = mutate (nat_of_int 6) (n_of_dec seed) j0 in
                 "ok " ^ hex_of_bytes (jprint j) ^ " " ^ b01 (j = j0) ^ " " ^ show_res (tid t) (jr (tid t) [] (Some j))))
+  (* mvar <tid> <boxed> <tl1hex> <seed>: every Maybe-like object of the tree (canonical spelling for an even seed, an
+     alternative one otherwise) in every shape the Maybe reader has a rule for, both member orders; a window of at most 39 consecutive ones:
+     ok <texthex>:<verdict words joined by ':'> ... *)
+  | ["mvar"; t; boxed; h; seed] ->
+      (match decode (tid t) boxed h with
+       | None -> "badtl1"
+       | Some v ->
+           let sd = n_of_dec seed in
+           let even = (match BinNat.N.div_eucl sd (n_of_int 2) with (_, r) -> r = N0) in
+           let base = if even then jw (tid t) [] v else jsonw_alt ffmt js true sd (tid t) [] v in
+           (match base with
+            | None -> "none"
+            | Some j0 ->
+                let vs = jvariants j0 in
+                let n = List.length vs in
+                let win = 39 in
+                let off = if n <= win then 0 else (int_of_string (String.sub seed (max 0 (String.length seed - 4)) (min 4 (String.length seed)))) mod (n - win + 1) in
+                let sel = List.filteri (fun i _ -> i >= off && i < off + win) vs in
+                let item j = hex_of_bytes (jprint j) ^ ":" ^ String.concat ":" (String.split_on_char ' ' (show_res (tid t) (jr (tid t) [] (Some j)))) in
+                "ok " ^ string_of_int n ^ " " ^ String.concat " " (List.map item sel)))
   | ["wf"] -> if wf_jschema js then "ok true" else "ok false"
   | l -> "driver-error unknown op " ^ String.concat " " l
 
